@@ -338,6 +338,13 @@ unit("info", ["C02", "C06"], "units/u_info.c", entry="h_info", functions=["handl
 unit("info.allocfail", ["C15", "C02", "C06"], "units/u_info.c", entry="h_info", functions=["handle_info", "create_info"], shared_tags=True, defines=["INFO_FAIL=1"],
      bound="loop-free handler; every subset of its allocations fails", expect_tags=["C15.info.answer-is-complete-or-absent-never-partial", "C15.info.allocation-failure-leaks-nothing"], **INFO_COMMON)
 
+CFG_COMMON = dict(unwind=8, cbmc_unwindset=["cJSON_GetObjectItem.0:4", "cj_name_eq_nocase.0:9"], solver="cadical", kind="proof", flags=["--memory-leak-check"], timeout=120,
+                  bound="loop-free handler; names of <= 2 characters", assumes=CJ_ASSUME + ["response builders: counting stubs", "duplicate_string: copies or (allocfail variant) returns NULL"])
+unit("cfg.peer", ["C02"], "units/u_config.c", entry="h_cfg_peer", functions=["config_peer", "set_peer_name", "get_peer_name", "get_params"], shared_tags=True,
+     expect_tags=["C02.config.exactly-one-response-is-built", "C02.config.refused-request-leaves-the-name-alone"], **CFG_COMMON)
+unit("cfg.peer.allocfail", ["C15"], "units/u_config.c", entry="h_cfg_peer", functions=["config_peer", "set_peer_name", "get_peer_name", "get_params"], shared_tags=True, defines=["CFG_FAIL=1"],
+     expect_tags=["C15.config.name-is-the-new-copy-or-absent-never-the-released-one", "C15.config.old-name-released-exactly-once"], **CFG_COMMON)
+
 unit("rpc.dispatch", ["C02", "C06"], "units/u_rpc.c", entry="h_rpc_dispatch", functions=["parse_json_rpc", "handle_method", "send_response", "process_fetch"], unwind=16, cbmc_unwindset=CJ_UNWIND + ["cJSON_GetObjectItem.0:6", "cj_name_eq_nocase.0:9"], solver="cadical",
      kind="proof", bound="every combination of method (12 names, unknown, non-string) / id / result / error members",
      expect_tags=["C02.dispatch.exactly-one-handler-per-request-object", "C02.dispatch.each-built-response-is-sent-exactly-once", "C02.dispatch.incoming-result-is-routed-never-answered"],
@@ -690,10 +697,10 @@ PROPERTY_META["C15"] = {
                    "the routed path: create_routed_message builds a complete message or nothing and leaves no node behind, set_or_call never releases a routing request that is already registered (and never leaves an answered one registered), "
                    "handle_routing_response answers at most once and releases every node once when the copy of the reply, the response object or its rendering fail; the 'info' handler (create_info) hands a complete answer or none to the response builder and leaks nothing; the 'get' handler (get_elements / get_element / create_fetch / alloc_fetch) lists only complete states, "
                    "builds exactly the response it returns and leaves no JSON node behind when the fetch record, the states array, a state entry or one of its members cannot be allocated."),
-    "level_note": ("Covered functions only (response.c, alloc.c, add_fetch_to_state, handle_authentication, create_routed_message, set_or_call, handle_routing_response, handle_info / create_info, get_elements / get_element / create_fetch / alloc_fetch; add_element_to_peer in the thorough tier). Matcher construction (add_matchers: the harness lets every operand copy fail), add_fetch_to_peer, config.c and groups.c under allocation failure are not covered; cJSON's own behaviour "
+    "level_note": ("Covered functions only (response.c, alloc.c, add_fetch_to_state, handle_authentication, create_routed_message, set_or_call, handle_routing_response, handle_info / create_info, get_elements / get_element / create_fetch / alloc_fetch; add_element_to_peer in the thorough tier). Also config_peer / set_peer_name (a failed name copy never leaves the released name in place). Matcher construction (add_matchers: the harness lets every operand copy fail), add_fetch_to_peer and groups.c under allocation failure are not covered; cJSON's own behaviour "
                    "under failure is the executable model's (a failed AddItemToObject does not take ownership). 'Keeps serving afterwards' at daemon level is outside per-function contracts."),
     "explanation": "C15: the harness contracts of the listed units with every allocation (malloc/calloc and every cJSON creator / key copy) allowed to fail independently; cbmc --memory-leak-check and the model's live-node counter as oracles.",
-    "not_decided": ["matcher construction and add_fetch_to_peer in fetch.c, config.c, groups.c under allocation failure", "heap-cap induced failures at daemon level"],
+    "not_decided": ["matcher construction and add_fetch_to_peer in fetch.c, groups.c under allocation failure", "heap-cap induced failures at daemon level"],
 }
 PROPERTY_META["C19"] = {
     "level": "other",
